@@ -63,3 +63,8 @@ def pyInt? (s : String) : Option Int :=
 def pyStrInt (i : Int) : String := toString i
 
 end Ari
+
+namespace Ari
+/-- `s.startswith(p)` -/
+def pyStartsWith (s p : String) : Bool := p.toList.isPrefixOf s.toList
+end Ari
